@@ -148,9 +148,11 @@ theorem DFrame.hitTask (origin s : Nat) (acc : State × Bool) (t : Nat) :
         · exact DFrame.refl _
         · dsimp only
           split
+          · refine (DFrame.taskCancel _ _ _).trans ?_
+            refine DFrame.trans ?_ (DFrame.setTask_st _ _ _ (by intro _; rfl) (by intro _; rfl))
+            exact DFrame.setScope_ctl _ _ _ (by intro _; rfl)
           · exact (DFrame.taskCancel _ _ _).trans
-              (DFrame.setScope_ctl _ _ _ (fun _ => rfl))
-          · exact DFrame.taskCancel _ _ _
+              (DFrame.setTask_st _ _ _ (by intro _; rfl) (by intro _; rfl))
       · exact DFrame.refl _
 
 theorem DFrame.foldl {α : Type} (f : State × Bool → α → State × Bool)
@@ -397,13 +399,15 @@ def exitDecide (st : State) (t s : Nat) (ev : ExcVal) : Option (State × ExitRes
   else
     let st :=
       if sc.pending > 0 then
+        let drop := fun (st : State) =>
+          st.setTask t (fun x => { x with nDropped := x.nDropped + sc.pending })
         let st :=
           match sc.parent with
           | some p =>
             if (st.scopes p).host = some t then
               st.setScope p (fun x => { x with pending := x.pending + sc.pending })
-            else st
-          | none => st
+            else drop st
+          | none => drop st
         st.setScope s (fun x => { x with pending := 0 })
       else st
     some (fin st, .passed)
